@@ -141,8 +141,38 @@ def replay(path):
     import json
     with open(path) as f:
         w = json.load(f)
-    print(json.dumps(w, indent=1)[:4000])
-    print("witness 'input' = arguments (squareroot: x; nextretry: birth age chan; prioq: operation bytes 0-3 insert key, "
-          "4 delmin, or the 'rand' harness arguments). Re-running the tier with VERIF_SEED=%s:" % w.get("seed"))
-    os.environ["VERIF_SEED"] = str(w.get("seed", 1))
-    return main(w.get("tier", "quick"))
+    key = w.get("key", "")
+    case = (w.get("cases") or [{}])[0]
+    wit = case.get("witness") or {}
+    print("key: %s\nwhy: %s\nwitness: %s" % (key, case.get("why"), json.dumps(wit)[:600]))
+    b = build.vbuild("asan")
+    ctx = Ctx(w.get("tier", "quick"), b)
+    args = None
+    try:
+        raw = bytes.fromhex(wit.get("input_hex", "")) if wit.get("input_hex") not in (None, "-") else b""
+        if key.startswith("C15/squareroot/"):
+            args = ("h_send_sched", SEND_OBJS, ["sq1", raw.decode().split()[0]])
+        elif key.startswith("C15/nextretry/"):
+            args = ("h_send_sched", SEND_OBJS, ["retry1"] + raw.decode().split()[:3])
+        elif key.startswith("C15/prioq/") and not raw.startswith(b"rand"):
+            args = ("h_prioq", PRIOQ_OBJS, ["seq", raw.hex()])
+        elif key.startswith("C15/prioq/"):
+            args = ("h_prioq", PRIOQ_OBJS, raw.decode().split())
+    except (ValueError, IndexError):
+        args = None
+    if args is None:
+        print("no single-case replay for this key; re-running the tier with VERIF_SEED=%s" % w.get("seed"))
+        os.environ["VERIF_SEED"] = str(w.get("seed", 1))
+        return main(w.get("tier", "quick"))
+    h = ctx.harness(args[0], args[1])
+    res = hrun.run_one(h, args[2], ctx.env, 600)
+    if res.violations:
+        print("VIOLATION property=C15 replay=%s" % path)
+        for v in res.violations[:3]:
+            print("  key=%s why=%s (reproduced by %s %s)" % (v["key"], v["why"], args[0], " ".join(args[2])))
+        return 1
+    if res.inconclusive:
+        print("INCONCLUSIVE property=C15: %s" % res.inconclusive[0][:300])
+        return 2
+    print("OK property=C15: the recorded case no longer fails on this tree")
+    return 0
